@@ -45,11 +45,31 @@ ScalarFaults == <<[cls |-> "scalar_empty", s |-> ""], [cls |-> "scalar_not_hex",
 
 M(cls, path, n) == [cls |-> cls, path |-> path, n |-> n]
 
+(* ---- duplicates of identifiers and addresses: a scalar takes the value another scalar of the same meaning has ----
+   Same meaning = same key at the same kind of position (the path with the sequence indices blanked), e.g. the id of
+   another segment, the number of another point of the board, the cv of another reverser; a dcc-address may come from
+   any dcc-address of the three files (trains and DCC accessories share one address space). *)
+IsIndex(x) == x \in {ToString(i) : i \in 0..64}
+Shape(path) == [i \in DOMAIN path |-> IF IsIndex(path[i]) THEN "*" ELSE path[i]]
+RECURSIVE ScalarsOf(_, _)
+ScalarsOf(n, path) ==
+    IF n.t = "v" THEN {[path |-> path, s |-> n.s]}
+    ELSE IF n.t = "m" THEN UNION {ScalarsOf(n.kv[i].v, Append(path, n.kv[i].k)) : i \in DOMAIN n.kv}
+    ELSE UNION {ScalarsOf(n.it[i], Append(path, ToString(i))) : i \in DOMAIN n.it}
+Docs == JsonDeserialize(IOEnv.DOCS)        \* sequence of [name, tree]
+AllScalars == UNION {ScalarsOf(Docs[i].tree, <<>>) : i \in DOMAIN Docs}
+KeyOf(path) == IF path = <<>> THEN "" ELSE path[Len(path)]
+Donors(path, own) == {x.s : x \in {y \in AllScalars : /\ y.s # own
+                                                       /\ KeyOf(y.path) = KeyOf(path)
+                                                       /\ KeyOf(path) \in {"id", "unique-id", "number", "port", "address", "cv", "dcc-address", "bit", "value"}
+                                                       /\ (Shape(y.path) = Shape(path) \/ KeyOf(path) = "dcc-address")}}
+
 RECURSIVE Mut(_, _)
 Mut(n, path) ==
     IF n.t = "v" THEN
         {M(ScalarFaults[i].cls, path, Scalar(ScalarFaults[i].s)) : i \in {j \in DOMAIN ScalarFaults : ScalarFaults[j].s # n.s}}
         \cup {M("scalar_to_sequence", path, OneSeq), M("scalar_to_mapping", path, OneMap)}
+        \cup {M("scalar_copied", path, Scalar(d)) : d \in Donors(path, n.s)}
     ELSE IF n.t = "m" THEN
         {M("mapping_to_scalar", path, Scalar("x")), M("mapping_to_sequence", path, OneSeq), M("mapping_emptied", path, EmptyMap)}
         \cup UNION {
@@ -86,7 +106,6 @@ ASSUME {"key_deleted", "key_duplicated", "key_renamed", "key_to_front", "keys_sw
 (* every position of the document is hit: each key path and each item index occurs as a mutant path *)
 ASSUME {<<"boards">>, <<"boards", "1">>, <<"boards", "1", "id">>, <<"boards", "1", "unique-id">>} \subseteq {m.path : m \in Mutants(Tiny)}
 
-Docs == JsonDeserialize(IOEnv.DOCS)        \* sequence of [name, tree]
 AllMutants == [i \in DOMAIN Docs |-> [name |-> Docs[i].name, mutants |-> SetToSeq(Mutants(Docs[i].tree))]]
 
 VARIABLE done
